@@ -80,6 +80,14 @@ def _cases_core(rng, tier):
         yield "sec_parse " + hx(sec33), "sec-boundary-x"
         vk = ecdsa.VerifyingKey.from_string(sec33, curve=ecdsa.SECP256k1)
         yield "sec_parse " + hx(vk.to_string("uncompressed")), "sec-boundary-x-uncompressed"
+    # scalars constructed so that the WIF text has an interior, aligned block of the zero digit '1'
+    for c in common.zero_block_cases(rng, 6 if tier == "quick" else 60):
+        if c[0] == "wif":
+            k, comp, test = c[1], c[2], c[3]
+            kb = k.to_bytes(32, "big")
+            yield "wif %s %s %s" % (hx(kb), "1" if comp else "0", "1" if test else "0"), "zero-digit-block-wif"
+            w = b58check_enc((b"\xef" if test else b"\x80") + kb + (b"\x01" if comp else b""))
+            yield "from_wif " + sx(w), "zero-digit-block-from-wif"
     # rejection of scalars
     for v in (0, N, N + 1, 2 ** 256 - 1, 2 ** 256, 2 ** 256 + 5, N + 2 ** 200):
         yield "priv_int %d" % v, "priv-int-reject"
